@@ -89,7 +89,15 @@ def run(ctx):
         samples.append({"mode": rec["mode"], "w": rec["w"], "script": rec["script"], "acks": rec["acks"]})
         if len(samples) >= 3:
             break
+    # the sender's sleep on the window against the arrival of updates (gate between its load and its sleep)
+    from vlib import wakefam
+    ww = wakefam.run_winwake(ctx)
     ctx.coverage = {
+        "window_wakeups": {"model": "MpxWinWake.tla", "schedules_replayed": ww["schedules"], "steps": ww["steps"],
+                           "rule": "a Send waiting for window is held at the gate between loading the window and going to sleep; the peer's "
+                                   "window updates (enough at once, crumbs then enough, exactly half the window, never enough) are applied before, "
+                                   "between and after; after every step the sender is at the gate with the model's window, asleep, or has returned; "
+                                   "without the buffered token the model loses a wake-up (checked)"},
         "states": states, "transitions": trans, "traces_validated_against_impl": sum(summary["scripts"].values()),
         "samples": samples, "windows_model_checked": ws, "windows_scripted": sws, "script_steps": summary["steps"],
         "per_window": per_w, "invariants": ["Bound", "Conservation", "NoStuck", "AckPending"], "liveness": ["Progress"],
